@@ -79,6 +79,32 @@ pub fn parse_fields<S: Src>(s: &mut S, which: u8, nf: usize) {
     let (a, la) = draw_field(s, if which == F_U8 { 9 } else { 3 });
     let (v, lv) = draw_field(s, 3);
     let mut cpu = Cpu::new();
+    let ra = ref_hex(&a, la, if which == F_U8 { 0xffff_ffff } else { 0xff });
+    let rv = ref_hex(&v, lv, 0xff);
+    let kind = if which == F_U8 { E_WRITE } else { E_PORT };
+    // "observable": the target is something a native run can read back (plain storage / an existing port)
+    let observable = match ra {
+        Some(x) if which == F_U8 => crate::harness::mem::accessible(x) && !crate::harness::mem::side_effect_reg(x),
+        Some(p) => p >= 1 && p <= 11,
+        None => false,
+    };
+    // native replay (no stubs): the target is preset to a sentinel different from the value to be written
+    #[cfg(not(kani))]
+    let sentinel: u8 = match rv {
+        Some(y) => !(y as u8),
+        None => 0x5a,
+    };
+    #[cfg(not(kani))]
+    {
+        if observable {
+            let x = ra.unwrap();
+            if which == F_U8 {
+                let _ = cpu.bus.write(x, sentinel);
+            } else {
+                cpu.bus.io_port_in[x as usize - 1] = sentinel;
+            }
+        }
+    }
     let a_str = unsafe { core::str::from_utf8_unchecked(&a[..la]) };
     let v_str = unsafe { core::str::from_utf8_unchecked(&v[..lv]) };
     let head = if which == F_U8 { "u8" } else { "ioport" };
@@ -95,62 +121,39 @@ pub fn parse_fields<S: Src>(s: &mut S, which: u8, nf: usize) {
         cpu.parse_ioport(list);
         true
     };
-    let ra = ref_hex(&a, la, if which == F_U8 { 0xffff_ffff } else { 0xff });
-    let rv = ref_hex(&v, lv, 0xff);
-    let kind = if which == F_U8 { E_WRITE } else { E_PORT };
+    let expected: Option<(u8, u32, u32)> = match (nf == 3, ra, rv) {
+        (true, Some(x), Some(y)) => Some((kind, x, y)),
+        _ => None,
+    };
     #[cfg(kani)]
     let (n, e0) = unsafe { (EV_N, EV[0]) };
-    // native replay: no stubs - the effect is observed on the real bus (fresh, all-zero memory)
     #[cfg(not(kani))]
     let (n, e0) = {
-        let mut n = 0usize;
-        let mut e0 = (0u8, 0u32, 0u32);
-        if which == F_U8 {
-            if let Some(x) = ra {
-                if crate::harness::mem::accessible(x) && !crate::harness::mem::side_effect_reg(x) {
-                    let got = cpu.bus.read(x).unwrap_or(0);
-                    if got != 0 {
-                        n = 1;
-                        e0 = (E_WRITE, x, got as u32);
-                    } else if nf == 3 && rv == Some(0) {
-                        n = 1; // a store of zero into zero memory cannot be told from no store
-                        e0 = (E_WRITE, x, 0);
-                    }
-                } else if nf == 3 && rv.is_some() {
-                    n = 1; // unmapped / register address: effect not observable natively
-                    e0 = (E_WRITE, x, rv.unwrap());
-                }
-            }
+        if observable {
+            let x = ra.unwrap();
+            let now = if which == F_U8 { cpu.bus.read(x).unwrap_or(sentinel) } else { cpu.bus.io_port_in[x as usize - 1] };
+            if now != sentinel { (1usize, (kind, x, now as u32)) } else { (0usize, (0u8, 0u32, 0u32)) }
         } else {
-            let mut p = 0;
-            while p < crate::bus::IO_PORT_SIZE {
-                if cpu.bus.io_port_in[p] != 0 {
-                    n += 1;
-                    e0 = (E_PORT, p as u32 + 1, cpu.bus.io_port_in[p] as u32);
-                }
-                p += 1;
-            }
-            if n == 0 && nf == 3 && rv == Some(0) && ra.is_some() {
-                n = 1;
-                e0 = (E_PORT, ra.unwrap(), 0);
-            }
-            if n == 0 && nf == 3 && rv.is_some() && ra.map_or(false, |q| q == 0 || q > 11) {
-                n = 1; // port numbers outside 1..=11 have no observable effect natively
-                e0 = (E_PORT, ra.unwrap(), rv.unwrap());
+            // not observable natively: taken as expected (such a counterexample cannot be confirmed)
+            match expected {
+                Some(e) => (1usize, e),
+                None => (0usize, (0u8, 0u32, 0u32)),
             }
         }
-        (n, e0)
     };
-    let ok_effect = match (nf == 3, ra, rv) {
-        (true, Some(x), Some(y)) => n == 1 && e0 == (kind, x, y),
-        _ => n == 0,
+    let ok_effect_all = match expected {
+        Some(e) => n == 1 && e0 == e,
+        None => n == 0,
     };
-    witness!(when: nf == 3, n == 1 && la >= 2 && lv == 2, "a well-formed line is applied");
+    // two aspects so that the solver is asked for a natively observable counterexample separately
+    let ok_effect = !observable || ok_effect_all;
+    let ok_effect_other = observable || ok_effect_all;
+    witness!(when: nf == 3, n == 1 && la >= 2 && lv == 2 && observable, "a well-formed line is applied");
     witness!(when: nf == 3, n == 0 && la > 0 && lv > 0, "a malformed number is ignored");
     witness!(when: nf == 3 && which == F_U8, ra.is_none() && la == 9 && hexval(a[0]).is_some() && hexval(a[8]).is_some() && n == 0, "nine digits or a bad digit");
     witness!(when: nf != 3, n == 0, "wrong field count");
     std::mem::forget(cpu);
-    verdict!("result" => ok_result, "effect" => ok_effect);
+    verdict!("result" => ok_result, "effect" => ok_effect, "effect_unobservable_target" => ok_effect_other);
 }
 
 // ------------------------------------------------------------------------------------------ run-loop level
